@@ -1067,6 +1067,34 @@ impl<'a> Ctx<'a> {
         Ok(Emitted { text: out, canary: None, src_line: line })
     }
 
+    pub fn inherent_methods(&mut self, file: &str, ty: &str) -> Result<Vec<String>, String> {
+        self.load(file)?;
+        let mut out = vec![];
+        let src = &self.sources[file];
+        for it in &src.ast.items {
+            if let syn::Item::Impl(im) = it {
+                if im.trait_.is_some() || !self.attrs_on(&im.attrs)? {
+                    continue;
+                }
+                let self_ty = match &*im.self_ty {
+                    syn::Type::Path(p) => p.path.segments.last().map(|s| s.ident.to_string()).unwrap_or_default(),
+                    _ => String::new(),
+                };
+                if self_ty != ty {
+                    continue;
+                }
+                for ii in &im.items {
+                    if let syn::ImplItem::Fn(f) = ii {
+                        if self.attrs_on(&f.attrs)? {
+                            out.push(f.sig.ident.to_string());
+                        }
+                    }
+                }
+            }
+        }
+        Ok(out)
+    }
+
     pub fn extract_fn(&mut self, fs: &FnSpec) -> Result<Emitted, String> {
         self.load(&fs.file)?;
         let src = &self.sources[&fs.file];
@@ -1132,10 +1160,11 @@ impl<'a> Ctx<'a> {
         let text0 = src.text[r].to_string();
         // pass 1
         let text1 = self.clean(&text0, kind, None, !in_trait_impl && !fs.nopub)?;
+        // (an external_body stub keeps only its signature: the body rewrites are skipped)
         let text1 = mutself_pass(text1, is_method, &mut self.cnt)?;
         // pass 2 (R4)
-        let text2 = r4_pass(text1, is_method, &fs.r4result, &mut self.cnt)?;
-        let text2 = if fs.guards { r12_pass(text2, is_method, &mut self.cnt)? } else { text2 };
+        let text2 = if fs.external { text1 } else { r4_pass(text1, is_method, &fs.r4result, &mut self.cnt)? };
+        let text2 = if fs.guards && !fs.external { r12_pass(text2, is_method, &mut self.cnt)? } else { text2 };
         // pass 3 (R7)
         let (sig_ident, output, block, sig_range, fn_start): (Range<usize>, Option<Range<usize>>, Range<usize>, Range<usize>, usize);
         let tail_range: Option<Range<usize>>;
@@ -1331,6 +1360,7 @@ struct Gen<'a> {
     trusted: Vec<String>,
     assumed_depth: usize,
     proved_elsewhere: Vec<String>,
+    emitted_fns: HashSet<String>,
 }
 
 fn kv<'x>(parts: &[&'x str], key: &str) -> Option<&'x str> {
@@ -1569,6 +1599,7 @@ impl<'a> Gen<'a> {
                             return Err(format!("{path}: //@fn {} without //@end", fs.path));
                         }
                         let e = self.ctx.extract_fn(&fs)?;
+                        self.emitted_fns.insert(fs.path.clone());
                         let disp = fs.rename.clone().map(|n| format!("{} (as {n})", fs.path)).unwrap_or(fs.path.clone());
                         let start = self.cur_line();
                         self.emit(&format!("    // <<< {}:{} {}", fs.file, e.src_line, fs.path));
@@ -1589,6 +1620,31 @@ impl<'a> Gen<'a> {
                             self.map.push(MapEntry { gen_start: start, gen_end: end, kind: "canary", name: disp, file: fs.file.clone(), src_line: e.src_line, props: vec![] });
                         }
                     }
+                    "rest" => {
+                        // every method of the inherent impl blocks of <Type> in <file> that this unit has not emitted
+                        // appears as an external_body stub WITHOUT any contract (nothing is assumed about it, nothing
+                        // is proved): a caller inside the unit learns nothing from calling it
+                        let file = parts.get(1).ok_or("//@rest file Type")?.to_string();
+                        let ty = parts.get(2).ok_or("//@rest file Type")?.to_string();
+                        let names = self.ctx.inherent_methods(&file, &ty)?;
+                        let mut n = 0usize;
+                        for name in names {
+                            let path = format!("{ty}::{name}");
+                            if self.emitted_fns.contains(&path) {
+                                continue;
+                            }
+                            let fs = FnSpec { file: file.clone(), path: path.clone(), external: true, nocanary: true, ..Default::default() };
+                            let e = self.ctx.extract_fn(&fs)?;
+                            self.emitted_fns.insert(path.clone());
+                            let start = self.cur_line();
+                            self.emit(&format!("    // <<< {}:{} {} (stub without contract)", file, e.src_line, path));
+                            self.emit(&format!("    {}", e.text));
+                            let end = self.cur_line();
+                            self.map.push(MapEntry { gen_start: start, gen_end: end, kind: "stub", name: path, file: file.clone(), src_line: e.src_line, props: vec![] });
+                            n += 1;
+                        }
+                        self.trusted.push(format!("{n} other methods of {ty} appear as external_body stubs without any contract (not verified, nothing assumed)"));
+                    }
                     "trusted" => {
                         self.trusted.push(d.trim_start().strip_prefix("trusted").unwrap_or("").trim().to_string());
                     }
@@ -1607,7 +1663,7 @@ pub fn gen(opts: &HashMap<String, String>) -> Result<(), String> {
     let get = |k: &str| opts.get(k).cloned().ok_or(format!("missing --{k}"));
     let cfg = Cfg { on: get("cfg")?.split(',').filter(|s| !s.is_empty()).map(String::from).collect() };
     let ctx = Ctx { cfg: &cfg, srcdir: get("src")?, sources: HashMap::new(), cnt: Counters { r: HashMap::new() }, dropped: vec![] };
-    let mut g = Gen { ctx, contracts: get("contracts")?, out: String::new(), map: vec![], trusted: vec![], assumed_depth: 0, proved_elsewhere: vec![] };
+    let mut g = Gen { ctx, contracts: get("contracts")?, out: String::new(), map: vec![], trusted: vec![], assumed_depth: 0, proved_elsewhere: vec![], emitted_fns: HashSet::new() };
     let tpl = get("template")?;
     g.process(&tpl, 0)?;
     std::fs::write(get("out")?, &g.out).map_err(|e| e.to_string())?;
